@@ -29,7 +29,7 @@ func main() {
 	logger := zap.NewNop()
 
 	srv := server.NewServer()
-	handler := protocol.ServerHandler(newServerDispatcher(srv), nil)
+	handler := didChangeHandler(srv, protocol.ServerHandler(newServerDispatcher(srv), nil))
 
 	stream := jsonrpc2.NewStream(stdrwc{})
 	conn := jsonrpc2.NewConn(stream)
@@ -42,6 +42,32 @@ func main() {
 
 	if err := conn.Err(); err != nil {
 		os.Exit(1)
+	}
+}
+
+// didChangeHandler decodes textDocument/didChange itself: the protocol package decodes a
+// content change without range and one with the empty range 0:0-0:0 to the same value, but the
+// first replaces the document and the second inserts at its start.
+func didChangeHandler(srv *server.Server, next jsonrpc2.Handler) jsonrpc2.Handler {
+	return func(ctx context.Context, reply jsonrpc2.Replier, req jsonrpc2.Request) error {
+		if req.Method() != protocol.MethodTextDocumentDidChange {
+			return next(ctx, reply, req)
+		}
+		var params struct {
+			TextDocument   protocol.VersionedTextDocumentIdentifier `json:"textDocument"`
+			ContentChanges []struct {
+				Range *protocol.Range `json:"range"`
+				Text  string          `json:"text"`
+			} `json:"contentChanges"`
+		}
+		if err := json.Unmarshal(req.Params(), &params); err != nil {
+			return reply(ctx, nil, fmt.Errorf("%w: %s", jsonrpc2.ErrParse, err))
+		}
+		changes := make([]server.ContentChange, len(params.ContentChanges))
+		for i, change := range params.ContentChanges {
+			changes[i] = server.ContentChange{Range: change.Range, Text: change.Text}
+		}
+		return reply(ctx, nil, srv.ApplyContentChanges(ctx, params.TextDocument.URI, changes))
 	}
 }
 
